@@ -274,6 +274,9 @@ func bridgeScenario(run *ev.Run, percent float64) *scenario {
 		root = append(root, call(w, "c2", "zcnsc", zcnsc.AddToDelegatePoolFunc, map[string]any{"provider_type": spenum.Authorizer, "provider_id": w.Actors[n].ID}, 1e10, 0, "["+n+",1e10]"))
 	}
 	sc.roots = [][]chainsim.Action{root, root[:3]} // second start state: authorizers registered but unstaked
+	if percent == 1.0 {
+		sc.roots = sc.roots[:1]
+	}
 	// signature sets: every assignment of {absent, valid, forged} to the three authorizers, with and without an entry of the unregistered key
 	kinds := []string{"", "valid", "forged"}
 	for m := 0; m < 27; m++ {
